@@ -225,12 +225,74 @@ def collision_stage(ck, rng, stats, quick):
                 return
 
 
+def two_block_stage(ck, rng, stats, q):
+    """P1 is ONE run with two blocks: a message is moved from the inbox into the archive across file systems (that rename fails with EXDEV),
+    then the archive itself is walked and another message is flagged there (a rename inside one file system).  P2, a second mdsort, moves
+    that other message out of the archive at every call boundary of P1.  What P1 learnt in its first block must not change how it treats
+    the second: at no boundary are there two complete copies for P2 to find."""
+    BULK = b'To: user@example.com\nSubject: bulk\n\nBULK-0003\n'
+    exe = os.path.join(common.scratch_build('plain'), 'mdsort')
+    n = None; k = 0
+    while True:
+        k += 1
+        if n is not None and k > n:
+            break
+        sb = mdrun.Sandbox()
+        inbox = sb.maildir('src'); A = sb.maildir('A'); B = sb.maildir('B')
+        sb.add(inbox, 'new', BULK, name='1500000000.5_5.bulk', mtime=1500000000)
+        sb.add(A, 'new', ORIG, name=NAME, mtime=1500000000)
+        c1 = sb.write_conf(('maildir "%s" {\n\tmatch header "Subject" /bulk/ move "%s"\n}\nmaildir "%s" {\n\tmatch new and header "Subject" /message/ flag !new\n}\n'
+                            % (inbox, A, A)).encode(), name='p1.conf')
+        c2 = sb.write_conf(('maildir "%s" {\n\tmatch header "Subject" /message/ move "%s"\n}\n' % (A, B)).encode(), name='p2.conf')
+        script = os.path.join(sb.root, 'p2.sh'); stf = os.path.join(sb.root, 'p2.status')
+        with open(script, 'w') as f:
+            f.write('#!/bin/sh\nenv -u VFIO_PLAN -u VFIO_XDEV LD_PRELOAD=%s VFIO_PID=4343 VFIO_LOG=%s/p2.log HOME=%s TMPDIR=%s LC_ALL=C %s -f %s 2>%s/p2.err\necho $? > %s\n'
+                    % (SHIM, sb.root, sb.home, sb.tmp, exe, c2, sb.root, stf))
+        os.chmod(script, 0o755)
+        log = os.path.join(sb.root, 'p1.log')
+        env = dict(iorun.PIN)
+        env.update({'VFIO_LOG': log, 'VFIO_ROOT': sb.root, 'VFIO_XDEV': 'name:1500000000.5_5.bulk'})
+        if n is not None:
+            env['VFIO_PLAN'] = '%d:run=%s' % (k, script)
+        rc1, out, err1 = sb.run([], conf=c1, env=env, preload=SHIM, timeout=60)
+        trace = open(log, errors='replace').read().splitlines() if os.path.exists(log) else []
+        if n is None:
+            n = len(iorun.parse_trace(trace)); k = 0
+            sb.cleanup(); continue
+        stats['runs'] += 1; stats['two_block'] = stats.get('two_block', 0) + 1
+        st2 = open(stf).read().strip() if os.path.exists(stf) else None
+        if st2 is not None:
+            files = survey(sb)
+            urgent = [(md, sub, nm) for md, sub, nm, b in files if intact(b)]
+            bulk = [(md, sub, nm) for md, sub, nm, b in files if b == BULK]
+            junk = [(md, sub, nm, len(b)) for md, sub, nm, b in files if not intact(b) and b != BULK]
+            why = None
+            if len(urgent) != 1:
+                why = 'the flagged message exists %d times: %r' % (len(urgent), urgent)
+            elif len(bulk) != 1 or bulk[0][0] != 'A':
+                why = 'the moved message is at %r' % bulk
+            elif junk:
+                why = 'empty / partial file(s) left behind: %r' % junk
+            if why:
+                stats['viol'] += 1
+                if stats['viol'] <= 4:
+                    ck.violation('P1 = one run, block 1 moves a message into A across file systems, block 2 flags another message inside A; P2 = mdsort moving that message '
+                                 'out of A before call %d of P1: %s (P1 exit %d, P2 exit %s)' % (k, why, rc1, st2),
+                                 {'stage': 'two-block', 'boundary': k, 'p1_exit': rc1, 'p2_exit': st2, 'files': [(md, sub, nm, len(b)) for md, sub, nm, b in files]})
+            else:
+                stats['nontrivial'] += 1
+        sb.cleanup()
+        if stats['viol'] > 3:
+            return
+
+
 def run(ck):
     rng = ck.rng
     q = ck.tier == 'quick'
     model = common.model_exe()
     stats = dict(runs=0, nontrivial=0, model_checked=0, known=0, viol=0)
     collision_stage(ck, rng, stats, q)
+    two_block_stage(ck, rng, stats, q)
     samples = []
     pairs = [(a, b) for a in P1_KINDS for b in P2_KINDS if '+' not in P1_KINDS[a][1] or not q or b in ('extrename', 'extdelete', 'move', 'discard')]
     # model outcomes per pair of model kinds
@@ -355,7 +417,7 @@ def three_parties(ck, rng, stats, n):
     """thorough tier: three parties, two preemption points (P2 before call k1 of P1, P3 before call k2 >= k1); monitor only"""
     stats['three'] = 0
     for i in range(n):
-        p1 = rng.choice(sorted(P1_KINDS)); p2 = rng.choice(sorted(P2_KINDS)); p3 = rng.choice(['move', 'discard', 'label', 'extrename', 'extdelete'])
+        p1 = rng.choice(sorted(k_ for k_ in P1_KINDS if '+' not in P1_KINDS[k_][1])); p2 = rng.choice(sorted(P2_KINDS)); p3 = rng.choice(['move', 'discard', 'label', 'extrename', 'extdelete'])
         sb, c1, script, stf = setup(p1, p2)
         rc0, err0, trace0 = run_p1(sb, c1, p1)
         calls0 = iorun.parse_trace(trace0)
